@@ -27,7 +27,7 @@ class MirrorRun:
 
     # ------------------------------------------------------------ build
     def build(self):
-        ov = self.ctx.harness_overlay(PKG, PKG + "/internal/tmi", only=("zz_verif_rig", "zz_verif_mirror", "zz_verif_access", "zz_verif_proj", "zz_verif_conc"))
+        ov = self.ctx.harness_overlay(PKG, PKG + "/internal/tmi", only=("zz_verif_rig", "zz_verif_mirror", "zz_verif_access", "zz_verif_proj", "zz_verif_conc", "zz_verif_c07lists"))
         self.binary = os.path.join(self.dir, "mirror.test")
         self.ctx.go_test(PKG, "", overlay=ov, compile_only=True, binary=self.binary, timeout=900)
         out = os.path.join(self.dir, "rank.ndjson")
